@@ -59,7 +59,7 @@ def case(cid, rng, sc):
                                   pointwise_local_reconstruction_error)
     from sklearn.linear_model import Ridge
     dx, dy, kind = sc["dx"], sc["dy"], sc["kind"]
-    n = 24
+    n = int(rng.choice([24, 24, 25, 23]))          # also odd sample counts (the default split is then uneven)
     for _ in range(100):
         # generic real data: lattice points would put several neighbours at exactly equal distances, and the
         # k-nearest-neighbour sets of LRE would then depend on rounding (a tie, not a property violation)
